@@ -3,6 +3,8 @@ the parameter-value dispatch whose export side is under contract in c_params / c
 
 * import_port_dir(pport): never refuses one of the four VLSIR directions, the Hdl21 direction of the same name.
 * import_prefix(vpre): never refuses one of the 21 VLSIR prefixes, the Hdl21 prefix of the same name.
+* import_prefixed(vpref): the Prefixed is built (constructor trusted) from the number the record carries in the variant
+  that is set and from import_prefix of the record's own prefix field.
 * import_parameter_value(pparam): per variant of the record's `value` oneof the very value the record carries
   (int / text / literal text), a `prefixed` variant through exactly one call of import_prefixed on the record's own
   `prefixed` sub-record.  ValueError may escape only for a record outside the tables / with no variant set (so every
@@ -206,6 +208,38 @@ def replay(con, ob):
                 bad.append(f"import_parameter_value(prefixed=5 MILLI) -> {got!r}")
         except Exception as e:
             bad.append(f"import_parameter_value(prefixed=5 MILLI) raised {type(e).__name__}")
+    elif con.key == K_PFX:
+        from decimal import Decimal
+        for m in Prefix:
+            for variant, vals in (("int64_value", [0, 5, -3, 2 ** 40]), ("string_value", ["1.50", "1E-9", "12345678901234567890.5"]),
+                                  ("double_value", [0.5, 1e-9])):
+                for v in vals:
+                    vp = vlsir.Prefixed(prefix=getattr(vlsir.SIPrefix, m.name), **{variant: v})
+                    try:
+                        got = im.import_prefixed(vp)
+                    except Exception as e:
+                        bad.append(f"import_prefixed({m.name}, {variant}={v!r}) raised {type(e).__name__}")
+                        continue
+                    want = Decimal(v) if variant != "double_value" else Decimal(str(v))
+                    if not isinstance(got, Prefixed) or got.prefix is not m or got.number != want or \
+                            (variant == "string_value" and got.number.as_tuple() != want.as_tuple()):
+                        bad.append(f"import_prefixed({m.name}, {variant}={v!r}) -> {got!r}")
+    elif con.key == K_PRM:
+        from hdl21.primitives import Vpulse, Vdc
+        names = list(PULSE_MAP)
+        for present in [names, []] + [names[:k] + names[k + 1:] for k in range(len(names))] + [[n] for n in names]:
+            params = {k: Prefixed(number=i + 1) for i, k in enumerate(present)}
+            try:
+                got = im.import_primitive_params(Vpulse, dict(params))
+            except Exception as e:
+                bad.append(f"import_primitive_params(Vpulse, {sorted(present)}) raised {type(e).__name__}")
+                continue
+            want = {f: params.get(v) for v, f in PULSE_MAP.items()}
+            if not isinstance(got, dict) or set(got) != set(want) or any(got[f] is not want[f] for f in want):
+                bad.append(f"import_primitive_params(Vpulse, {params!r}) -> {got!r}")
+        d = {"dc": Prefixed(number=1), "ac": None}
+        if im.import_primitive_params(Vdc, d) != d:
+            bad.append("import_primitive_params(Vdc, ..) changed the parameters")
     if bad:
         inp["case"] = bad[0]
         return (True, "; ".join(bad[:4]), inp)
@@ -213,3 +247,149 @@ def replay(con, ob):
 
 
 replay.finds_own_model = True
+
+
+# ---------------------------------------------------------------------------------------------- import_prefixed
+class ImportPrefixCallee(Contract):
+    """import_prefix as a callee (proved above): some prefix - remembered with the call - or ValueError."""
+    key = K_PRE
+
+    def scenarios(self, eng):
+        return []
+
+    def apply(self, eng, st, args, kwargs, node=None):
+        a = NS({"vpre": args[0] if args else kwargs.get("vpre"), "result": Opaque("the imported prefix")})
+        st.calls.append((self.key, a))
+        ok, bad = st.fork(), st.fork()
+        return [(ok, a.result), (bad, Exc(ValueError))]
+
+
+class PrefixedCtor2(Contract):
+    """Prefixed(number=.., prefix=..) - trusted constructor (pydantic validation): a new Prefixed or a refusal."""
+    key = "hdl21.prefix:Prefixed"
+
+    def scenarios(self, eng):
+        return []
+
+    def apply(self, eng, st, args, kwargs, node=None):
+        a = NS({"number": kwargs.get("number"), "prefix": kwargs.get("prefix"), "nargs": len(args),
+                "extra": tuple(sorted(k for k in kwargs if k not in ("number", "prefix")))})
+        st.calls.append((self.key, a))
+        ok, bad = st.fork(), st.fork()
+        r = ok.alloc(Prefixed)
+        ok.ghost[("built-from", zid(r.z))] = a
+        return [(ok, r), (bad, Exc(ValueError))]
+
+
+class ImportPrefixed(Contract):
+    """import_prefixed(vpref): the Prefixed returned was built from the number the record carries in the variant that is
+    set (int64 / string; a double as it is) and from import_prefix(<the record's own prefix field>)."""
+    key = K_PFX
+    props = ("C11",)
+    pure = False
+    raises = (ValueError,)
+
+    def scenarios(self, eng):
+        def mk(variant):
+            def setup(eng, st):
+                vp = sym_ref(st, "vpref", (vlsir.Prefixed,))
+                st.ghost[("oneof", zid(vp.z), "number")] = variant
+                return {"vpref": vp}
+            s = Scenario(variant or "unset", setup)
+            s.expect_raise = variant is None
+            return s
+        for v in ("int64_value", "string_value", "double_value", None):
+            yield mk(v)
+
+    def p_built(self, eng, st0, st, a, res):
+        variant = st0.ghost.get(("oneof", zid(a.vpref.z), "number"))
+        if variant is None:
+            return True                      # nothing demanded of a record no export produces
+        pre = [c[1] for c in st.calls if c[0] == K_PRE]
+        ctor = [c[1] for c in st.calls if c[0] == "hdl21.prefix:Prefixed"]
+        if len(pre) != 1 or len(ctor) != 1 or not isinstance(res, SRef):
+            return False
+        c = ctor[0]
+        if c.nargs or c.extra or c.prefix is not pre[0].result or st.ghost.get(("built-from", zid(res.z))) is not c:
+            return False
+        fk = eng.field_key(st0, a.vpref, "prefix")
+        got_pre = pre[0].vpre
+        same_pre = zint(got_pre) == st0.heap.get(fk, a.vpref.z) if isinstance(got_pre, (int, SInt)) else False
+        if same_pre is False:
+            return False
+        nk = eng.field_key(st0, a.vpref, variant)
+        want = st0.heap.get(nk, a.vpref.z)
+        n = c.number
+        if variant == "int64_value":
+            return z3.And(same_pre, zint(n) == want) if isinstance(n, (int, SInt)) and not isinstance(n, (bool, SBool)) else False
+        if variant == "string_value":
+            return z3.And(same_pre, n.z == want) if isinstance(n, SStr) else False
+        if variant == "double_value":
+            return z3.And(same_pre, n.z == want) if isinstance(n, SReal) else False
+        return False
+    posts = property(lambda self: [("built-from-the-record's-number-and-prefix", self.p_built)])
+
+
+def prefixed_engine():
+    schema = dict(SCHEMA_EXTRA)
+    schema.update({"double_value": "real", "Prefixed.prefix": "int"})
+    return mk_engine(contracts=[ImportPrefixCallee(), PrefixedCtor2()], schema_extra=schema, field_classes=FIELD_CLASSES)
+
+
+VERIFY_PREFIXED = [ImportPrefixed()]
+
+
+# ---------------------------------------------------------------------------------------------- import_primitive_params
+K_PRM = "hdl21.proto.importing:import_primitive_params"
+PULSE_MAP = {"v1": "v1", "v2": "v2", "td": "delay", "tr": "rise", "tf": "fall", "tpw": "width", "tper": "period"}
+#  (the documented renaming, stated here on its own - the same table as on the export side, c_params.PULSE_MAP;
+#   props/c11 checks that the two statements agree)
+
+
+class ImportPrimitiveParams(Contract):
+    """import_primitive_params(target, params): for the pulse source the parameters come back under their Hdl21 names
+    (td->delay, tr->rise, tf->fall, tpw->width, tper->period, v1, v2), each value being the very object found under the
+    VLSIR name, a missing one as None; every other primitive's dictionary is handed back as it is."""
+    key = K_PRM
+    props = ("C11", "C13")
+    raises = ()
+
+    def scenarios(self, eng):
+        from hdl21.primitives import Vpulse, Vdc
+        import itertools
+
+        def mk(target, present):
+            def setup(eng, st):
+                params = {k: sym_ref(st, f"val_{k}", (Prefixed,)) for k in present}
+                return {"target": target, "params": params}
+            return Scenario(f"{target.name}/{'+'.join(present) or 'none'}", setup)
+        names = list(PULSE_MAP)
+        yield mk(Vpulse, names)
+        yield mk(Vpulse, [])
+        for k in range(len(names)):                       # each one missing, each one alone
+            yield mk(Vpulse, names[:k] + names[k + 1:])
+            yield mk(Vpulse, [names[k]])
+        yield mk(Vdc, ["dc", "ac"])
+
+    def p_map(self, eng, st0, st, a, res):
+        from hdl21.primitives import Vpulse
+        if a.target is not Vpulse:
+            return res is a.params
+        if not isinstance(res, dict) or sorted(res) != sorted(PULSE_MAP.values()):
+            return False
+        conj = []
+        for vname, field in PULSE_MAP.items():
+            got, want = res[field], a.params.get(vname)
+            if want is None:
+                conj.append(z3.BoolVal(got is None))
+            else:
+                conj.append(got.z == want.z if isinstance(got, SRef) else z3.BoolVal(False))
+        return z3.And(conj)
+    posts = property(lambda self: [("documented-renaming-inverted", self.p_map)])
+
+
+def params_engine():
+    return mk_engine(contracts=[], schema_extra=SCHEMA_EXTRA, field_classes=FIELD_CLASSES)
+
+
+VERIFY_PARAMS = [ImportPrimitiveParams()]
